@@ -37,8 +37,15 @@ type c14Case struct {
 	QEvery  int     `json:"qevery"`
 	QDerive bool    `json:"qderive"`
 	IQR     bool    `json:"iqr"`
-	// Grid: run the BinToValue checks.
-	Grid bool `json:"grid"`
+	// Grid: run the BinToValue checks, after GridAt values have been added
+	// (0: on the fresh histogram; len(Xs): after the stream, before the final
+	// queries; larger: after the final queries). Without Grid the harness
+	// itself calls BinToValue only after the last Add and the last query.
+	Grid   bool `json:"grid"`
+	GridAt int  `json:"gridat"`
+	// Batch: Counts() is read after every Batch-th Add (and before every
+	// checkpoint) instead of after every Add; 0 and 1 mean every Add.
+	Batch int `json:"batch"`
 	// fake
 	Under  uint64   `json:"under"`
 	Counts []uint64 `json:"counts"`
@@ -141,9 +148,24 @@ func c14JudgeQ(w *mon.W, x *c14QCtx, qsIn []float64, iqr bool) {
 	}
 	w.HitIf(total == 0, "empty-histogram-queried")
 	lastV, lastQ := math.NaN(), math.NaN()
-	// informational only: is every answer explained by one and the same rank
-	// reading? (the verdict accepts either reading per call)
+	// Is every answer on this histogram explained by one and the same rank
+	// reading? Each call is judged against both readings (the statement's
+	// English does not say 0- or 1-based), but it defines one rule: answers
+	// that need the 0-based reading for one q and the 1-based reading for
+	// another are a violation.
 	cons0, cons1 := true, true
+	otherViolation := false
+	var not0, not1 string // first answer the 0-based / 1-based reading cannot explain
+	var not0q, not1q float64
+	explained := func(q, got float64, e0, e1 bool) {
+		if !e0 && cons0 {
+			not0, not0q = fmt.Sprintf("Q(%v)=%v", q, got), q
+		}
+		if !e1 && cons1 {
+			not1, not1q = fmt.Sprintf("Q(%v)=%v", q, got), q
+		}
+		cons0, cons1 = cons0 && e0, cons1 && e1
+	}
 	defer func() {
 		switch {
 		case len(qs) == 0:
@@ -155,6 +177,9 @@ func c14JudgeQ(w *mon.W, x *c14QCtx, qsIn []float64, iqr bool) {
 			w.Note("readings:0-based-throughout")
 		default:
 			w.Note("readings:mixed-within-one-histogram")
+			if !otherViolation {
+				w.Violate("quantile-mixed-readings", fmt.Sprintf("%s: no single rank reading explains the answers on this histogram (total %d): %s fits only the 1-based reading of the floor(q*total)-th smallest sample, %s only the 0-based one", x.desc, total, not0, not1), x.mk([]float64{not0q, not1q}, false))
+			}
 		}
 	}()
 	for _, q := range qs {
@@ -178,17 +203,20 @@ func c14JudgeQ(w *mon.W, x *c14QCtx, qsIn []float64, iqr bool) {
 		}
 		if p, v := mon.Call(func() { got = stats.HistogramQuantile(x.h, q) }); p {
 			w.Violate(c14PanicKind(v, "panic-quantile"), fmt.Sprintf("%s: HistogramQuantile(q=%v) panicked: %v", x.desc, q, v), x.mk([]float64{q}, false))
+			otherViolation = true
 			continue
 		}
 		if x.post != nil {
 			if s := x.post(); s != "" {
 				w.Violate("quantile-mutates", fmt.Sprintf("%s: HistogramQuantile(q=%v): %s", x.desc, q, s), x.mk([]float64{q}, false))
+				otherViolation = true
 				return
 			}
 		}
 		if math.IsNaN(got) {
-			cons0, cons1 = cons0 && rd.NaN0, cons1 && rd.NaN1
+			explained(q, got, rd.NaN0, rd.NaN1)
 			if !nanOK {
+				otherViolation = true
 				w.Violate("quantile-nan", fmt.Sprintf("%s: HistogramQuantile(q=%v)=NaN but the floor(q*%d)-th smallest sample is binned under both rank readings (%s)", x.desc, q, total, c14Ivs(x, ivs)), x.mk([]float64{q}, false))
 			}
 			continue
@@ -208,13 +236,26 @@ func c14JudgeQ(w *mon.W, x *c14QCtx, qsIn []float64, iqr bool) {
 				best, bestTol = e, t
 			}
 		}
-		cons0, cons1 = cons0 && in0, cons1 && in1
+		for _, iv := range append(append([]ref.QInterval(nil), rd.Extra0...), rd.Extra1...) {
+			// the reading's sample does not exist (q=1 0-based, q*total<1
+			// 1-based): clamping to the last / first sample is not a switch of
+			// reading
+			lo := x.val(iv.Bin, iv.K, iv.C)
+			hi := x.val(iv.Bin, iv.K+1, iv.C)
+			if math.Max(math.Max(lo-got, got-hi), 0) <= math.Max(x.tol(lo), x.tol(hi)) {
+				in0, in1 = in0 || !iv.OneBased, in1 || iv.OneBased
+			}
+		}
+		explained(q, got, in0, in1)
 		if len(ivs) == 0 {
+			otherViolation = true
 			w.Violate("quantile-number", fmt.Sprintf("%s: HistogramQuantile(q=%v)=%v but the floor(q*%d)-th smallest sample is in the under/over count under both rank readings (want NaN)", x.desc, q, got, total), x.mk([]float64{q}, false))
 		} else if !w.Err("quantile", best, bestTol) {
+			otherViolation = true
 			w.Violate("quantile-value", fmt.Sprintf("%s: HistogramQuantile(q=%v)=%.17g outside every accepted rank interval %s (NaN accepted: %v)", x.desc, q, got, c14Ivs(x, ivs), nanOK), x.mk([]float64{q}, false))
 		}
 		if !math.IsNaN(lastV) && got < lastV-math.Max(x.tol(got), x.tol(lastV)) {
+			otherViolation = true
 			w.Violate("quantile-monotone", fmt.Sprintf("%s: HistogramQuantile(q=%v)=%.17g < HistogramQuantile(q=%v)=%.17g", x.desc, q, got, lastQ, lastV), x.mk([]float64{lastQ, q}, false))
 		}
 		lastV, lastQ = got, q
@@ -443,19 +484,78 @@ func c14JudgeHist(w *mon.W, c c14Case) {
 	w.HitIf(n == 1, "one-bin")
 	w.HitIf(n == 50, "fifty-bins")
 
-	if c.Grid {
-		if !c14JudgeGrid(w, c, h, hr, desc, op, base) {
-			return
-		}
-	}
-
 	xs := mon.Un(c.Xs)
 	qs := mon.Un(c.Qs)
-	var width float64 // one bin width below the first edge starts here
+	base.QEvery, base.Batch = c.QEvery, c.Batch // they shape the call history
+	var width float64                           // one bin width below the first edge starts here
 	if lin {
 		width = min - (max-min)/float64(n)
 	} else {
 		width = math.Pow(float64(c.B), -1/float64(c.M))
+	}
+	w.HitIf(!lin && hr.Max >= 0x1p63, "log:top-edge-beyond-2^63")
+	w.HitIf(!lin && hr.Max >= 1e30, "log:top-edge-beyond-1e30")
+
+	// Phase of the harness's own BinToValue calls. Until the grid has run the
+	// harness does not call BinToValue at all (a histogram is normally filled
+	// before anyone asks for an edge); the bracket checks of the values added
+	// so far are kept and made when the grid runs, or at the very end.
+	gridAt := -1
+	if c.Grid {
+		gridAt = c.GridAt
+		if gridAt < 0 {
+			gridAt = 0
+		}
+	}
+	gridDone := false
+	// hist is the replayable case for a violation seen after k Adds.
+	hist := func(k int) c14Case {
+		cc := base
+		cc.Xs = mon.Fs(xs[:k])
+		if gridDone {
+			cc.Grid, cc.GridAt = true, gridAt
+		}
+		return cc
+	}
+	type pend struct {
+		x     float64
+		slot  int
+		k     int
+		exact bool
+	}
+	var pending []pend
+	bracket := func(k int) bool {
+		// the library's own stated edges must bracket every value as well
+		for _, pd := range pending {
+			var e0, e1 float64
+			w.Eval(op + ".BinToValue")
+			if p, v := mon.Call(func() { e0, e1 = h.BinToValue(float64(pd.slot)), h.BinToValue(float64(pd.slot+1)) }); p {
+				w.Violate("panic-bintovalue", fmt.Sprintf("%s.BinToValue(%d) panicked: %v", desc, pd.slot, v), hist(k))
+				return false
+			}
+			t := 0.0
+			if !pd.exact {
+				t = math.Max(hr.Tol(e0), hr.Tol(e1))
+			}
+			if !(e0-t <= pd.x && pd.x < e1+t) {
+				w.Violate("bracket", fmt.Sprintf("%s: Add(%.17g) (value #%d) went to bin %d but BinToValue(%d)=%.17g, BinToValue(%d)=%.17g do not bracket it", desc, pd.x, pd.k, pd.slot, pd.slot, e0, pd.slot+1, e1), hist(k))
+				return false
+			}
+		}
+		pending = pending[:0]
+		return true
+	}
+	grid := func(k int) bool {
+		gridDone = true
+		L := len(xs)
+		if gridAt > L {
+			gridAt = L + 1 // after the final queries
+		}
+		w.HitIf(k == 0 && L > 0, "grid:on-fresh-histogram")
+		w.HitIf(k > 0 && k < L, "grid:mid-stream")
+		w.HitIf(k == L && L > 0 && c.GridAt <= L, "grid:after-stream")
+		w.HitIf(k == L && L > 0 && c.GridAt > L, "grid:after-final-queries")
+		return c14JudgeGrid(w, h, hr, desc, op, hist(k)) && bracket(k)
 	}
 
 	runQ := func(k int) {
@@ -465,8 +565,8 @@ func c14JudgeHist(w *mon.W, c c14Case) {
 			val:  hr.ValueFrac,
 			tol:  hr.Tol,
 			mk: func(qq []float64, iqr bool) c14Case {
-				cc := base
-				cc.Xs, cc.Qs, cc.IQR = mon.Fs(xs[:k]), mon.Fs(qq), iqr
+				cc := hist(k)
+				cc.Qs, cc.IQR = mon.Fs(qq), iqr
 				return cc
 			},
 			post: func() string {
@@ -492,23 +592,148 @@ func c14JudgeHist(w *mon.W, c c14Case) {
 		c14JudgeQ(w, x, all, c.IQR)
 	}
 
+	// verify reads Counts() after the Adds xs[from:to] and compares the change
+	// with the reference slots of those values.
+	type slotted struct {
+		slot, alt int
+		exact     bool
+	}
+	var sl []slotted
+	verify := func(from, to int) bool {
+		after, p, pv := c14Snap(h)
+		w.Eval(op + ".Counts")
+		if p {
+			w.Violate("panic-counts", fmt.Sprintf("%s.Counts() panicked after Add(%v): %v", desc, xs[to-1], pv), hist(to))
+			return false
+		}
+		if len(after) != len(cur) {
+			w.Violate("shape", fmt.Sprintf("%s: Add changed the number of bins from %d to %d (values #%d..#%d)", desc, n, len(after)-2, from, to-1), hist(to))
+			return false
+		}
+		if to-from == 1 {
+			x, k := xs[from], from
+			slot, alt, exact := sl[0].slot, sl[0].alt, sl[0].exact
+			// conservation: exactly one counter, by exactly one
+			obs, nchanged, badDelta := -2, 0, false
+			for i := range after {
+				if after[i] != cur[i] {
+					nchanged++
+					obs = i - 1
+					if after[i] != cur[i]+1 {
+						badDelta = true
+					}
+				}
+			}
+			if nchanged != 1 || badDelta {
+				w.Violate("conservation", fmt.Sprintf("%s: Add(%v) (value #%d) changed %d counters (before %v, after %v)", desc, x, k, nchanged, cur, after), hist(to))
+				return false
+			}
+			if obs != slot && obs != alt {
+				lo, hi := math.Inf(-1), math.Inf(1)
+				if slot >= 0 {
+					lo = hr.Edge(slot)
+				}
+				if slot < n {
+					hi = hr.Edge(slot + 1)
+				}
+				w.Violate("bin", fmt.Sprintf("%s: Add(%.17g) (value #%d) incremented %s; reference: %s, edges [%.17g, %.17g) (window %s)", desc, x, k, c14SlotName(obs, n), c14SlotName(slot, n), lo, hi, c14Win(hr, exact)), hist(to))
+				return false
+			}
+		} else {
+			// a batch: no counter may go down, the increments add up to the
+			// number of Adds, and they can be matched to the reference slots
+			// (a value in an edge window counts for either neighbour)
+			w.Hit("counts-read-per-batch")
+			delta := make([]int64, n+2)
+			var sum int64
+			for i := range after {
+				delta[i] = int64(after[i]) - int64(cur[i])
+				if after[i] < cur[i] {
+					w.Violate("conservation", fmt.Sprintf("%s: counter[%s] went from %d to %d over the Adds #%d..#%d", desc, c14SlotName(i-1, n), cur[i], after[i], from, to-1), hist(to))
+					return false
+				}
+				sum += delta[i]
+			}
+			if sum != int64(to-from) {
+				w.Violate("conservation", fmt.Sprintf("%s: %d Adds (values #%d..#%d) changed the counters by %d in total (before %v, after %v)", desc, to-from, from, to-1, sum, cur, after), hist(to))
+				return false
+			}
+			fixed := make([]int64, n+2)
+			amb := make([]int64, n+2) // amb[e]: values in the window of edge e (slots e-1 and e)
+			for _, t := range sl {
+				if t.slot == t.alt {
+					fixed[t.slot+1]++
+				} else if t.slot > t.alt {
+					amb[t.slot]++
+				} else {
+					amb[t.alt]++
+				}
+			}
+			left, bad := int64(0), -2
+			for i := 0; i <= n+1 && bad == -2; i++ {
+				need := delta[i] - fixed[i] - left
+				avail := int64(0)
+				if i <= n {
+					avail = amb[i]
+				}
+				if need < 0 || need > avail {
+					bad = i - 1
+				}
+				left = avail - need
+			}
+			if bad != -2 {
+				want := make([]int64, n+2)
+				copy(want, fixed)
+				shown := fmt.Sprint(xs[from:to])
+				if to-from > 6 {
+					shown = fmt.Sprintf("%v...", xs[from:from+6])
+				}
+				w.Violate("bin", fmt.Sprintf("%s: the %d Adds #%d..#%d %s changed the counters [under bins... over] by %v; the reference puts %v there (plus, per edge, %v values within the edge window), mismatch at %s", desc, to-from, from, to-1, shown, delta, want, amb[:n+1], c14SlotName(bad, n)), hist(to))
+				return false
+			}
+		}
+		for i, t := range sl {
+			if t.slot == t.alt && t.slot >= 0 && t.slot < n {
+				pending = append(pending, pend{xs[from+i], t.slot, from + i, t.exact})
+			}
+		}
+		sl = sl[:0]
+		cur = after
+		w.HitIf(cur[0] > 0, "under>0")
+		w.HitIf(cur[n+1] > 0, "over>0")
+		if gridDone {
+			return bracket(to)
+		}
+		return true
+	}
+
 	if len(xs) == 0 {
 		w.Hit("empty-stream")
 	}
 	w.HitIf(len(xs) == 500, "stream-of-500")
+	w.HitIf(gridAt < 0 && len(xs) > 0, "grid:never")
+	batch := c.Batch
+	if batch < 1 {
+		batch = 1
+	}
+	if gridAt == 0 {
+		if !grid(0) {
+			return
+		}
+	}
+	from := 0
+	pre := "log:"
+	if lin {
+		pre = "lin:"
+	}
 	for k, x := range xs {
 		w.Eval(op + ".Add")
-		prefix := func() c14Case {
-			cc := base
-			cc.Xs = mon.Fs(xs[:k+1])
-			return cc
-		}
 		slot, alt, exact := hr.Slot(x)
+		sl = append(sl, slotted{slot, alt, exact})
 		// classes: from the value and the reference only
-		pre := "log:"
-		if lin {
-			pre = "lin:"
-		}
+		w.HitIf(!gridDone, "add-before-any-harness-bintovalue")
+		w.HitIf(!lin && x == 0, "log:zero-sample")
+		w.HitIf(!lin && x < 0, "log:negative-sample")
 		if slot == alt {
 			w.HitIf(slot == -1 && x > width, pre+"below-first-edge-within-width")
 			w.HitIf(slot == -1 && x <= width, pre+"far-below")
@@ -516,6 +741,7 @@ func c14JudgeHist(w *mon.W, c c14Case) {
 			w.HitIf(lin && slot == n && (x-max)/(max-min) > 1e20, "lin:above-by-more-than-1e20-ranges")
 			w.HitIf(slot == 0, "first-bin")
 			w.HitIf(slot == n-1, "last-bin")
+			w.HitIf(!lin && slot >= 0 && slot < n && x >= 0x1p63, "log:binned-value-beyond-2^63")
 			if exact {
 				t := (x - min) / ((max - min) / float64(n))
 				if t == math.Floor(t) && t >= 0 && t <= float64(n) {
@@ -531,75 +757,45 @@ func c14JudgeHist(w *mon.W, c c14Case) {
 			w.Note(pre + "value-in-edge-window")
 		}
 		if p, v := mon.Call(func() { h.Add(x) }); p {
-			w.Violate("panic-add", fmt.Sprintf("%s: Add(%v) (value #%d) panicked: %v", desc, x, k, v), prefix())
+			w.Violate("panic-add", fmt.Sprintf("%s: Add(%v) (value #%d) panicked: %v", desc, x, k, v), hist(k+1))
 			return
 		}
-		after, p, pv := c14Snap(h)
-		w.Eval(op + ".Counts")
-		if p {
-			w.Violate("panic-counts", fmt.Sprintf("%s.Counts() panicked after Add(%v): %v", desc, x, pv), prefix())
-			return
-		}
-		if len(after) != len(cur) {
-			w.Violate("shape", fmt.Sprintf("%s: Add(%v) changed the number of bins from %d to %d", desc, x, n, len(after)-2), prefix())
-			return
-		}
-		// conservation: exactly one counter, by exactly one
-		obs, nchanged, badDelta := -2, 0, false
-		for i := range after {
-			if after[i] != cur[i] {
-				nchanged++
-				obs = i - 1
-				if after[i] != cur[i]+1 {
-					badDelta = true
-				}
-			}
-		}
-		if nchanged != 1 || badDelta {
-			w.Violate("conservation", fmt.Sprintf("%s: Add(%v) (value #%d) changed %d counters (before %v, after %v)", desc, x, k, nchanged, cur, after), prefix())
-			return
-		}
-		if obs != slot && obs != alt {
-			lo, hi := math.Inf(-1), math.Inf(1)
-			if slot >= 0 {
-				lo = hr.Edge(slot)
-			}
-			if slot < n {
-				hi = hr.Edge(slot + 1)
-			}
-			w.Violate("bin", fmt.Sprintf("%s: Add(%.17g) (value #%d) incremented %s; reference: %s, edges [%.17g, %.17g) (window %s)", desc, x, k, c14SlotName(obs, n), c14SlotName(slot, n), lo, hi, c14Win(hr, exact)), prefix())
-			return
-		}
-		// the library's own stated edges must bracket the value as well
-		if obs >= 0 && obs < n && slot == alt {
-			var e0, e1 float64
-			w.Eval(op + ".BinToValue")
-			if p, v := mon.Call(func() { e0, e1 = h.BinToValue(float64(obs)), h.BinToValue(float64(obs+1)) }); p {
-				w.Violate("panic-bintovalue", fmt.Sprintf("%s.BinToValue(%d) panicked: %v", desc, obs, v), prefix())
+		checkpoint := c.QEvery > 0 && (k+1)%c.QEvery == 0 && k+1 < len(xs)
+		gridNow := !gridDone && gridAt == k+1 && k+1 < len(xs)
+		if (k+1-from) >= batch || checkpoint || gridNow || k+1 == len(xs) {
+			if !verify(from, k+1) {
 				return
 			}
-			t := 0.0
-			if !exact {
-				t = math.Max(hr.Tol(e0), hr.Tol(e1))
-			}
-			if !(e0-t <= x && x < e1+t) {
-				w.Violate("bracket", fmt.Sprintf("%s: Add(%.17g) went to bin %d but BinToValue(%d)=%.17g, BinToValue(%d)=%.17g do not bracket it", desc, x, obs, obs, e0, obs+1, e1), prefix())
+			from = k + 1
+		}
+		if gridNow {
+			if !grid(k + 1) {
 				return
 			}
 		}
-		cur = after
-		w.HitIf(cur[0] > 0, "under>0")
-		w.HitIf(cur[n+1] > 0, "over>0")
-		if c.QEvery > 0 && (k+1)%c.QEvery == 0 && k+1 < len(xs) {
+		if checkpoint {
 			runQ(k + 1)
+		}
+	}
+	if !gridDone && gridAt >= 0 && gridAt <= len(xs) {
+		if !grid(len(xs)) {
+			return
 		}
 	}
 	if len(qs) > 0 || c.QDerive || c.IQR {
 		runQ(len(xs))
 	}
-	w.Distinct(mon.NewHasher().S(c.Kind).F(min).F(max).I(c.NBins).I(c.B).I(c.M).Fs(xs).Fs(qs).Sum())
+	if !gridDone && gridAt >= 0 {
+		if !grid(len(xs)) {
+			return
+		}
+	}
+	if !bracket(len(xs)) {
+		return
+	}
+	w.Distinct(mon.NewHasher().S(c.Kind).F(min).F(max).I(c.NBins).I(c.B).I(c.M).Fs(xs).Fs(qs).I(gridAt).I(batch).Sum())
 	if w.WantSample() && len(xs) > 3 {
-		w.Sample(map[string]any{"hist": desc, "adds": len(xs), "under": cur[0], "over": cur[n+1], "bins": n, "queries": len(qs)})
+		w.Sample(map[string]any{"hist": desc, "adds": len(xs), "under": cur[0], "over": cur[n+1], "bins": n, "queries": len(qs), "grid_after_adds": gridAt, "counts_every": batch})
 	}
 }
 
@@ -615,10 +811,8 @@ func c14Win(hr *ref.HistRef, exact bool) string {
 
 // c14JudgeGrid: BinToValue against the reference edges, strictly increasing
 // on a grid of eighths, linear / geometric interpolation inside a bin.
-func c14JudgeGrid(w *mon.W, c c14Case, h stats.Histogram, hr *ref.HistRef, desc, op string, base c14Case) bool {
+func c14JudgeGrid(w *mon.W, h stats.Histogram, hr *ref.HistRef, desc, op string, gc c14Case) bool {
 	n := hr.N
-	gc := base
-	gc.Grid = true
 	b2v := func(t float64) (v float64, ok bool) {
 		w.Eval(op + ".BinToValue")
 		if p, pv := mon.Call(func() { v = h.BinToValue(t) }); p {
@@ -862,10 +1056,8 @@ func c14DyadicValues(rng *mon.Rand, min, max float64, n, count int) []float64 {
 func c14LogShape(rng *mon.Rand) (b, m int, max float64, n int) {
 	b = rng.Range(2, 10)
 	m = rng.Range(1, 4)
-	nmax := int(math.Floor(float64(m) * math.Log(1e9) / math.Log(float64(b))))
-	if nmax > 50 {
-		nmax = 50
-	}
+	// 1..50 bins for every base and m: the top edge b^(50/m) reaches 1e50
+	const nmax = 50
 	n = rng.Range(1, nmax)
 	switch rng.Intn(6) {
 	case 0:
@@ -889,6 +1081,21 @@ func c14LogValues(rng *mon.Rand, b, m, n, count int) []float64 {
 	xs := make([]float64, 0, count)
 	for len(xs) < count {
 		var x float64
+		if rng.Intn(60) == 0 {
+			// not positive: below the first bin like any other value < 1
+			switch rng.Intn(4) {
+			case 0:
+				x = 0
+			case 1:
+				x = math.Copysign(0, -1)
+			case 2:
+				x = -c14Pow10(rng, -3, 3)
+			default:
+				x = -c14Pow10(rng, -300, 300)
+			}
+			xs = append(xs, x)
+			continue
+		}
 		switch rng.Intn(13) {
 		case 0, 1, 2:
 			x = math.Exp(rng.Uniform(0, math.Log(top)))
@@ -941,16 +1148,44 @@ func c14LogValues(rng *mon.Rand, b, m, n, count int) []float64 {
 	return xs
 }
 
+// c14History draws the phase of the harness's BinToValue checks and how
+// often Counts() is read, for a stream of L values.
+func c14History(rng *mon.Rand, c *c14Case, L int) {
+	c.Grid, c.GridAt, c.Batch = true, 0, 1
+	switch g := rng.Intn(20); {
+	case g < 7: // on the fresh histogram
+	case g < 11:
+		if L >= 2 {
+			c.GridAt = rng.Range(1, L-1)
+		}
+	case g < 14:
+		c.GridAt = L
+	case g < 16:
+		c.GridAt = L + 1
+	default:
+		c.Grid = false
+	}
+	switch rng.Intn(10) {
+	case 0, 1:
+		c.Batch = rng.Range(2, 40)
+	case 2:
+		c.Batch = 500 // the whole stream (up to the next checkpoint)
+	}
+}
+
 func c14Run(r *mon.Run) {
-	r.Rule("LinearHist: 1..50 bins, min<max of either sign, magnitudes 1e-290..1e290, range/scale >= 1e-6, plus dyadic shapes (power-of-two bin count and width) judged with a zero window; LogHist: bases 2..10, m 1..4, 1..50 bins up to 1e9; streams of 0..500 values from 1e60 ranges below to 1e60 ranges above (|x|<=1e306), dense within one bin width below the first edge and around every edge; after every Add a private copy of Counts() must differ from the previous one in exactly one counter by +1, and that counter must be the reference slot (384-bit edges, 1e-12 window: either side accepted); BinToValue: edges, eighths grid strictly increasing, interpolation law, 12 reference points per shape; HistogramQuantile on ~20 arguments per checkpoint incl. 0, 1 and rank boundaries j/total: both rank readings accepted, NaN iff a reading is outside the bins, value inside the rank interval of a reading, non-decreasing, counters untouched; HistogramIQR = Q(.75)-Q(.25). Harness-defined histograms: every count vector (under, <=3 bins, over each 0..3; thorough 0..4 with <=4 bins) x q=k/12 and k/7, three BinToValue shapes, call budget 4096. Non-trivial: hits a class; distinct by hash of (shape, stream, queries).")
+	r.Rule("LinearHist: 1..50 bins, min<max of either sign, magnitudes 1e-290..1e290, range/scale >= 1e-6, plus dyadic shapes (power-of-two bin count and width) judged with a zero window; LogHist: bases 2..10, m 1..4, 1..50 bins for every base and m (top edge up to 1e50); streams of 0..500 values from 1e60 ranges below to 1e60 ranges above (|x|<=1e306), dense within one bin width below the first edge and around every edge, LogHist streams with about 1 in 60 values zero, -0 or negative (reference: under count); after every Add (in 3 of 10 cases: after every batch of 2..40 Adds or of the whole stream) a private copy of Counts() must differ from the previous one in exactly one counter by +1, and that counter must be the reference slot (384-bit edges, 1e-12 window: either side accepted; per batch: no counter decreases and the increments match the multiset of reference slots); BinToValue: edges, eighths grid strictly increasing, interpolation law, 12 reference points per shape, run on the fresh histogram, mid-stream, after the stream, after the final queries or never (the harness calls BinToValue for nothing else before that point); HistogramQuantile on ~20 arguments per checkpoint incl. 0, 1 and rank boundaries j/total: each call judged against both rank readings (NaN iff a reading is outside the bins, value inside the rank interval of a reading), all answers on one histogram state explained by one and the same reading (else quantile-mixed-readings), non-decreasing, counters untouched; HistogramIQR = Q(.75)-Q(.25). Harness-defined histograms: every count vector (under, <=3 bins, over each 0..3; thorough 0..4 with <=4 bins) x q=k/12 and k/7, three BinToValue shapes, call budget 4096. Non-trivial: hits a class; distinct by hash of (shape, stream, queries).")
 	r.Assume("ambiguity: a value within 1e-12*max(|min|,|max|) (linear) or 1e-12 relative (log) of a reference edge may be counted on either side; zero window only for dyadic linear shapes with exact x-min, where every float64 formula for the bin index is exact",
-		"rank: g=floor(q*total) in exact arithmetic; also accepted: the floor of the correctly rounded float64 product, and k when q is exactly float64(k)/float64(total); the ranked sample is the one of 0-based index g or g-1; a numeric answer must lie in [BinToValue(bin+k/c), BinToValue(bin+(k+1)/c)] for the k-th of c samples of its bin under one of the readings",
-		"domain: finite values with |x|<=1e306 (linear) resp. within [1e-300,1e300] (log); range width between 1e-290 and 1e291 and at least 1e-6 of max(|min|,|max|); LogHist values > 0, LogHist max > 1; the bin count of a LogHist is taken from Counts() (the statement does not fix it)",
+		"rank: g=floor(q*total) in exact arithmetic; also accepted: the floor of the correctly rounded float64 product, and k when q is exactly float64(k)/float64(total); the ranked sample is the one of 0-based index g throughout or g-1 throughout (per histogram state; where a reading names no sample at all - 0-based at q=1, 1-based for q*total<1 - NaN and clamping to the last/first sample both count as that reading); a numeric answer must lie in [BinToValue(bin+k/c), BinToValue(bin+(k+1)/c)] for the k-th of c samples of its bin under one of the readings",
+		"domain: finite values with |x|<=1e306 (linear) resp. |x|<=1e300 (log); range width between 1e-290 and 1e291 and at least 1e-6 of max(|min|,|max|); LogHist values finite, of either sign and zero (non-positive values are below the first bin), positive ones within [1e-300,1e300], LogHist max > 1; the bin count of a LogHist is taken from Counts() (the statement does not fix it)",
 		"q in [0,1] only")
 	r.Gate("lin:above-by-more-than-1e20-ranges", "lin:below-first-edge-within-width", "log:below-first-edge-within-width", "under>0-quantile-in-bins", "under>0-quantile-in-bins-only",
 		"q=0", "q=1", "q=1-no-overflow", "over>0", "under>0", "exact-edge-dyadic", "top-edge-exact", "bottom-edge-exact",
 		"fake:under>0", "fake:over>0", "fake:empty-bin", "lin:above-last-edge", "log:above-last-edge", "empty-stream", "stream-of-500",
-		"IQR-number", "IQR-NaN", "one-bin", "fifty-bins")
+		"IQR-number", "IQR-NaN", "one-bin", "fifty-bins",
+		"log:top-edge-beyond-2^63", "log:top-edge-beyond-1e30", "log:binned-value-beyond-2^63", "log:zero-sample", "log:negative-sample",
+		"grid:on-fresh-histogram", "grid:mid-stream", "grid:after-stream", "grid:after-final-queries", "grid:never",
+		"add-before-any-harness-bintovalue", "counts-read-per-batch")
 	if err := ref.HistSelfTest(); err != nil {
 		r.Inconclusive("reference self-test failed: " + err.Error())
 		return
@@ -1050,6 +1285,7 @@ func c14Run(r *mon.Run) {
 		c.Xs = mon.Fs(c14LinValues(rng, min, max, n, L))
 		c.Qs = mon.Fs(c14Qs(rng, L))
 		c.QEvery = qevery(rng, L)
+		c14History(rng, &c, L)
 		c14JudgeHist(w, c)
 	})
 	r.Parallel("lin-dyadic", r.Pick(800, 5000), func(w *mon.W, i int) {
@@ -1060,6 +1296,7 @@ func c14Run(r *mon.Run) {
 		c.Xs = mon.Fs(c14DyadicValues(rng, min, max, n, L))
 		c.Qs = mon.Fs(c14Qs(rng, L))
 		c.QEvery = qevery(rng, L)
+		c14History(rng, &c, L)
 		c14JudgeHist(w, c)
 	})
 	r.Parallel("log-random", r.Pick(1500, 10000), func(w *mon.W, i int) {
@@ -1071,6 +1308,7 @@ func c14Run(r *mon.Run) {
 		c.Xs = mon.Fs(c14LogValues(rng, b, m, n, L))
 		c.Qs = mon.Fs(c14Qs(rng, L))
 		c.QEvery = qevery(rng, L)
+		c14History(rng, &c, L)
 		c14JudgeHist(w, c)
 	})
 }
